@@ -1015,9 +1015,9 @@ class BaseGaussianState(BaseState):
         self._alpha = self._mu[: self._modes] + 1j * self._mu[self._modes :]
         self._alpha /= np.sqrt(2 * self._hbar)
 
+        # (det(cov) of a pure state is (hbar/2)^(2N): compared in units in which that is 1)
         self._pure = (
-            np.abs(np.linalg.det(self._cov) - (self._hbar / 2) ** (2 * self._modes))
-            < self.EQ_TOLERANCE
+            np.abs(np.linalg.det(self._cov / (self._hbar / 2)) - 1) < self.EQ_TOLERANCE
         )
 
         self._basis = "gaussian"
@@ -1353,9 +1353,7 @@ class BaseGaussianState(BaseState):
         mu, cov = self.reduced_gaussian(modes)  # pylint: disable=unused-variable
 
         # the reduced state of a pure state is only pure if it is not entangled with the rest
-        reduced_pure = (
-            np.abs(np.linalg.det(cov) - (self._hbar / 2) ** (2 * len(modes))) < self.EQ_TOLERANCE
-        )
+        reduced_pure = np.abs(np.linalg.det(cov / (self._hbar / 2)) - 1) < self.EQ_TOLERANCE
 
         if self.is_pure and reduced_pure:
             psi = twq.state_vector(
